@@ -27,3 +27,5 @@ _reg("C27")
 _reg("C19")
 _reg("C24")
 _reg("C26")
+_reg("C20")
+_reg("C21")
